@@ -255,3 +255,172 @@ theorem ackLoop_roundtrip (acks : List Nat) (p : Bytes) (f i : Nat) (out : List 
       simp
 
 end Srtla.Codec
+
+namespace Srtla.Codec
+open Srtla.Gen
+
+/-! ## Round 2: decode-side specifications (word view, NAK content, fuel sufficiency)
+
+`wordsOf`, `nakRange`, `nakWords` are SPECIFICATIONS: plain structural recursion over the byte
+string / the word list, no fuel, no index arithmetic.  `nakLoop_spec` / `ackLoop_spec` /
+`expandLoop_spec` show the fuelled, index-driven loops of `Model/Codec.lean` compute exactly them
+whenever the fuel is at least the number of remaining words (in particular for the fuel
+`b.length` the model passes), so no loop is ever stopped by its fuel. -/
+
+/-- Word view: the complete big-endian 32-bit words of a byte string, in order; a trailing
+fragment of 1–3 bytes is ignored. -/
+def wordsOf : Bytes → List Nat
+  | a :: b :: c :: d :: rest => be32 a b c d :: wordsOf rest
+  | _ => []
+
+/-- One range entry `lo ..= hi`, given that `have_` entries were already produced: the numbers
+`lo, lo+1, …, hi` in order, cut off so that the whole output never exceeds 1000 entries. -/
+def nakRange (lo hi have_ : Nat) : List Nat := (List.range' lo (hi + 1 - lo)).take (1000 - have_)
+
+/-- NAK payload content over the word view: a word with clear top bit is one lost sequence number;
+a word with the top bit set opens a range `w & 0x7fffffff ..= next word`; a range marker that is the
+last complete word (truncated range) is dropped together with everything after it. -/
+def nakWords : List Nat → List Nat → List Nat
+  | [], out => out
+  | [w], out => if w < 2147483648 then out ++ [w] else out
+  | w :: e :: ws, out =>
+    if w < 2147483648 then nakWords (e :: ws) (out ++ [w])
+    else nakWords ws (out ++ nakRange (w &&& 0x7fffffff) e out.length)
+
+theorem wordsOf_short (b : Bytes) (h : b.length < 4) : wordsOf b = [] := by
+  match b, h with
+  | [], _ => rfl
+  | [_], _ => rfl
+  | [_, _], _ => rfl
+  | [_, _, _], _ => rfl
+
+theorem drop_four (b : Bytes) (i : Nat) (h : i + 3 < b.length) :
+    b.drop i = b[i] :: b[i+1] :: b[i+2] :: b[i+3] :: b.drop (i + 4) := by
+  rw [List.drop_eq_getElem_cons (by omega : i < b.length),
+      List.drop_eq_getElem_cons (by omega : i + 1 < b.length),
+      List.drop_eq_getElem_cons (by omega : i + 2 < b.length),
+      List.drop_eq_getElem_cons (by omega : i + 3 < b.length)]
+
+theorem wordsOf_drop (b : Bytes) (i : Nat) (h : i + 3 < b.length) :
+    wordsOf (b.drop i) = be32 b[i] b[i+1] b[i+2] b[i+3] :: wordsOf (b.drop (i + 4)) := by
+  rw [drop_four b i h, wordsOf]
+
+theorem wordsOf_drop_short (b : Bytes) (i : Nat) (h : ¬ i + 3 < b.length) : wordsOf (b.drop i) = [] :=
+  wordsOf_short _ (by simp; omega)
+
+/-- Entry `k` of the word view of `b` from offset `i` is the big-endian word at `i + 4k`. -/
+theorem wordsOf_drop_getElem? (b : Bytes) (i k : Nat) (h : i + 4 * k + 3 < b.length) :
+    (wordsOf (b.drop i))[k]? =
+      some (be32 (b[i + 4 * k]'(by omega)) (b[i + 4 * k + 1]'(by omega)) (b[i + 4 * k + 2]'(by omega))
+        (b[i + 4 * k + 3]'h)) := by
+  induction k generalizing i with
+  | zero => rw [wordsOf_drop b i (by omega)]; simp
+  | succ k ih =>
+    rw [wordsOf_drop b i (by omega), List.getElem?_cons_succ, ih (i + 4) (by omega)]
+    have e : i + 4 + 4 * k = i + 4 * (k + 1) := by omega
+    simp only [e]
+
+theorem wordsOf_drop_length (b : Bytes) (i : Nat) : (wordsOf (b.drop i)).length = (b.length - i) / 4 := by
+  generalize hn : (b.length - i) / 4 = n
+  induction n generalizing i with
+  | zero => rw [wordsOf_drop_short b i (by omega)]; rfl
+  | succ n ih => rw [wordsOf_drop b i (by omega), List.length_cons, ih (i + 4) (by omega)]
+
+/-! fuelled loops = specifications -/
+
+theorem expandLoop_spec (f seq e : Nat) (out : List Nat)
+    (hf : 1000 - out.length ≤ f) (hs : seq + f < 4294967296) :
+    expandLoop f seq e out = out ++ nakRange seq e out.length := by
+  induction f generalizing seq out with
+  | zero =>
+    have : 1000 - out.length = 0 := by omega
+    simp [expandLoop, nakRange, this]
+  | succ f ih =>
+    unfold expandLoop
+    have hc := Lit.SRT_NAK_MAX_EXPAND_eq
+    by_cases h : seq ≤ e ∧ out.length < Lit.SRT_NAK_MAX_EXPAND
+    · rw [if_pos h]
+      have hm : (seq + 1) % 4294967296 = seq + 1 := Nat.mod_eq_of_lt (by omega)
+      rw [hm, ih (seq + 1) (out ++ [seq]) (by simp; omega) (by omega)]
+      have e1 : e + 1 - seq = (e + 1 - (seq + 1)) + 1 := by omega
+      have e2 : 1000 - out.length = (1000 - (out ++ [seq]).length) + 1 := by simp; omega
+      simp only [nakRange]
+      rw [e1, e2, List.range'_succ, List.take_succ_cons]
+      simp
+    · rw [if_neg h]
+      simp only [nakRange]
+      by_cases h1 : seq ≤ e
+      · have : 1000 - out.length = 0 := by omega
+        simp [this]
+      · have : e + 1 - seq = 0 := by omega
+        simp [this]
+
+theorem and_mask31 (w : Nat) (h1 : 2147483648 ≤ w) (h2 : w < 4294967296) :
+    w &&& 0x7fffffff = w - 2147483648 := by
+  have := Nat.and_two_pow_sub_one_eq_mod w 31
+  simp only [Nat.reducePow, Nat.reduceSub] at this
+  rw [this]; omega
+
+theorem expandLoop_spec_max (seq e : Nat) (out : List Nat) (hs : seq < 2147483648) :
+    expandLoop Lit.SRT_NAK_MAX_EXPAND seq e out = out ++ nakRange seq e out.length := by
+  rw [Lit.SRT_NAK_MAX_EXPAND_eq]
+  exact expandLoop_spec 1000 seq e out (by omega) (by omega)
+
+theorem nakWords_single (w : Nat) (ws out : List Nat) (h : w < 2147483648) :
+    nakWords (w :: ws) out = nakWords ws (out ++ [w]) := by
+  cases ws with
+  | nil => simp [nakWords, h]
+  | cons e ws => simp [nakWords, h]
+
+theorem nakWords_range (w e : Nat) (ws out : List Nat) (h : 2147483648 ≤ w) :
+    nakWords (w :: e :: ws) out = nakWords ws (out ++ nakRange (w &&& 0x7fffffff) e out.length) := by
+  have : ¬ w < 2147483648 := by omega
+  simp [nakWords, this]
+
+theorem nakWords_truncated (w : Nat) (out : List Nat) (h : 2147483648 ≤ w) :
+    nakWords [w] out = out := by
+  have : ¬ w < 2147483648 := by omega
+  simp [nakWords, this]
+
+theorem rd32_wordsOf (b : Bytes) (i : Nat) (h : i + 3 < b.length) :
+    ∃ w, rd32 b i = .ok w ∧ w < 4294967296 ∧ wordsOf (b.drop i) = w :: wordsOf (b.drop (i + 4)) :=
+  ⟨_, rd32_ok b i h, be32_lt _ _ _ _, wordsOf_drop b i h⟩
+
+theorem nakLoop_spec (b : Bytes) (f i : Nat) (out : List Nat) (hf : b.length < i + 4 + 4 * f) :
+    nakLoop b f i out = .ok (nakWords (wordsOf (b.drop i)) out) := by
+  induction f generalizing i out with
+  | zero => rw [wordsOf_drop_short b i (by omega)]; simp [nakLoop, nakWords]
+  | succ f ih =>
+    unfold nakLoop
+    by_cases h : i + 3 < b.length
+    · obtain ⟨w, hr, hw, hwo⟩ := rd32_wordsOf b i h
+      rw [if_pos h, hr, hwo]
+      simp only [Chk.bind_ok]
+      by_cases hge : w ≥ 2147483648
+      · rw [if_pos hge]
+        by_cases h2 : i + 4 + 3 ≥ b.length
+        · rw [if_pos h2, wordsOf_drop_short b (i + 4) (by omega), nakWords_truncated w out hge]
+        · rw [if_neg h2]
+          obtain ⟨e, hr2, -, hwo2⟩ := rd32_wordsOf b (i + 4) (by omega)
+          rw [hr2, hwo2]
+          simp only [Chk.bind_ok]
+          rw [ih (i + 4 + 4) _ (by omega), expandLoop_spec_max _ _ _ (by omega),
+            nakWords_range w _ _ out hge, and_mask31 w hge hw]
+      · rw [if_neg hge, ih (i + 4) _ (by omega), nakWords_single w _ out (by omega)]
+    · rw [if_neg h, wordsOf_drop_short b i h]; simp [nakWords]
+
+theorem ackLoop_spec (b : Bytes) (f i : Nat) (out : List Nat) (hf : b.length < i + 4 + 4 * f) :
+    ackLoop b f i out = .ok (out ++ wordsOf (b.drop i)) := by
+  induction f generalizing i out with
+  | zero => rw [wordsOf_drop_short b i (by omega)]; simp [ackLoop]
+  | succ f ih =>
+    unfold ackLoop
+    by_cases h : i + 3 < b.length
+    · obtain ⟨w, hr, -, hwo⟩ := rd32_wordsOf b i h
+      rw [if_pos h, hr, hwo]
+      simp only [Chk.bind_ok]
+      rw [ih (i + 4) _ (by omega)]
+      simp
+    · rw [if_neg h, wordsOf_drop_short b i h]; simp
+
+end Srtla.Codec
